@@ -535,20 +535,28 @@ class Interp:
 
     def exec_import(self, s, env, module_level):
         _, path, form = s  # path: list of segments e.g. ["self", "a"]; form: ("whole", alias|None) | ("syms", [(name, alias|None)])
+        if path[0] == "std" and form[0] == "whole":
+            # a module of the standard library, bound to a name the program never looks into
+            self.declare(env, form[1] or path[-1], LModuleObj(path[-1], {}), module_level)
+            return
         if path[0] != "self":
             raise Unsupported("std import")
-        file = "/v/" + "/".join(path[1:]) + ".lay"
-        if file not in self.modules:
+        # every module on the way is loaded (its body runs once, outermost first) before the one asked for
+        for depth in range(2, len(path) + 1):
+            file = "/v/" + "/".join(path[1:depth]) + ".lay"
+            if file in self.modules:
+                continue
             src = self.files.get(file)
             if src is None:
                 raise self.error("ImportError", "Module %s not found" % "/".join(path))
             saved_name = self.module_name
-            self.module_name = path[-1]
+            self.module_name = path[depth - 1]
             try:
                 self.run_module(file, src, "script")
             finally:
                 self.module_name = saved_name
             self.count("module_run")
+        file = "/v/" + "/".join(path[1:]) + ".lay"
         menv, exports = self.modules[file]
         if form[0] == "whole":
             alias = form[1] or path[-1]
